@@ -16,7 +16,7 @@ pub struct Syntax {
 }
 
 /// string literal table: (raw text between the quotes, unescaped value)
-pub const STRINGS: [(&str, &str); 7] = [
+pub const STRINGS: [(&str, &str); 10] = [
     ("plain", "plain"),
     ("a\\\"b", "a\"b"),
     ("back\\\\slash", "back\\slash"),
@@ -24,6 +24,10 @@ pub const STRINGS: [(&str, &str); 7] = [
     ("x]y,z)", "x]y,z)"),
     ("", ""),
     ("a // b /* c", "a // b /* c"),
+    // escapes at the very start and at the very end of a literal, two backslashes in a row
+    ("\\\"start", "\"start"),
+    ("\\\\\\\\srv\\\\x", "\\\\srv\\x"),
+    ("end\\\\", "end\\"),
 ];
 
 pub fn sep_text(cls: &str) -> &'static str {
@@ -38,6 +42,7 @@ pub fn sep_text(cls: &str) -> &'static str {
         "ws3" => "\u{3000}",
         "bc2" => "/* x **/",
         "bc3" => "/***/",
+        "bc4" => "/*/ x */",
         "ppskip" => "\n#if NOPE\nstruct Hidden {}\n#endif\n",
         "ppdef" => "\n#define ZED\n",
         _ => " ",
